@@ -434,7 +434,7 @@ def assemble_walk(repo: Repo, prop: str = PROP, rule: str = "C06.ASSEMBLE-WALK")
     """Abstract run of Mesh.assemble over a symbolic depot (a lone operation, a 4-operation shape, a lone
     operation) with every single operation deleted in turn: each non-deleted operation yields exactly one
     block, in depot order, with its chops, cell zone, patches and faces; nothing else is skipped."""
-    r = RuleRun(prop, rule, floor=7, what="assemble() turns every non-deleted operation, and only those, into one block in depot order")
+    r = RuleRun(prop, rule, floor=10, what="assemble() turns every non-deleted operation, and only those, into one block in depot order")
     fn = repo.func("mesh.Mesh.assemble")
     op_cls = repo.cls("construct.operations.operation.Operation")
 
@@ -529,6 +529,21 @@ def assemble_walk(repo: Repo, prop: str = PROP, rule: str = "C06.ASSEMBLE-WALK")
         if geos != [{"geo": ["x"]}]:
             problems.append(f"geometries added: {geos}; expected the shape's geometry once")
         r.check(not problems, fn, f"deleted={deleted}: {len(blocks)} blocks", f"Mesh.assemble with operation {deleted} of [op0, shape(op1..op4), op5] deleted: " + "; ".join(problems[:4]), fn.node, key=f"deleted={deleted}")
+    # Mesh.delete records the operation unconditionally - also when its entity is added to the mesh later, or was deleted before
+    dl = repo.func("mesh.Mesh.delete")
+    for label, depot_has_it, already in (("operation not (yet) in the depot", False, False), ("operation in the depot", True, False), ("operation deleted twice", True, True)):
+        target = mk_op("target")
+        mesh_ = Obj("mesh", cls=repo.cls("mesh.Mesh"))
+        mesh_.set("depot", [target] if depot_has_it else [])
+        mesh_.set("deleted", {target} if already else set())
+        try:
+            Evaluator(repo=repo, module=dl.module).call_funcinfo(dl, [mesh_, target])
+        except Raised as err:
+            r.bad(dl, f"Mesh.delete raises {err.exc_name} ({label})", dl.node, key=f"delete:{label}")
+            continue
+        except NotEvaluable as err:
+            raise AnalysisError(f"Mesh.delete not evaluable: {err}") from err
+        r.check(target in mesh_.get("deleted"), dl, f"{label}: recorded as deleted", f"Mesh.delete, {label}: the operation is not in mesh.deleted afterwards - deleting an operation addressed through stack.grid / shape.grid before the stack is added to the mesh is silently ignored and the block is written", dl.node, key=f"delete:{label}")
     return r
 
 
@@ -600,4 +615,13 @@ def grade_idempotent(repo: Repo) -> RuleRun:
 
 grade_idempotent.rule_id = "C06.GRADE-IDEMPOTENT"
 
-RULES = [sections, side_tables, vertex_ownership, assemble_walk, patch_state, delete_skip, geometry_label, precision, user_state_survives, grading_form, geometry_redeclared, vertex_tolerance, grade_idempotent]
+def live_lengths(repo: Repo) -> RuleRun:
+    """'every geometry a built-in shape projects to is defined' with the size the shape has NOW: the sphere's radius is measured from its live points, not remembered from construction."""
+    from ..transforms import length_snapshot_rule
+
+    return length_snapshot_rule(repo, PROP, "C06.LIVE-LENGTHS")
+
+
+live_lengths.rule_id = "C06.LIVE-LENGTHS"
+
+RULES = [sections, side_tables, vertex_ownership, assemble_walk, patch_state, delete_skip, geometry_label, precision, user_state_survives, grading_form, geometry_redeclared, vertex_tolerance, grade_idempotent, live_lengths]
